@@ -38,7 +38,7 @@ def run(ctx, pid):
     def t_walks():
         return recipe.tlc_only('feed-walks', 'Feed', constants=walks, invariants=inv, properties=props,
                                emit=True, simulate=3000 if thorough else 500, depth=40, seed=ctx.seed,
-                               timeout=1200, heap='3g')
+                               timeout=1200, heap='3g', budget_ok=True)
 
     def t_live():
         return recipe.tlc_only('feed-live', 'Feed', constants=live, invariants=[],
